@@ -16,6 +16,7 @@ func init() {
 			ruleRegDescriptor(c)
 			ruleInternKey(c)
 			ruleSetLen(c)
+			ruleCountLoop(c)
 			rulePtrTag(c)
 			ruleEntryPresence(c)
 			ruleEfaceDirect(c)
